@@ -331,12 +331,24 @@ class WorkQueue:
         cancel_awaitables: list[Awaitable[Any]],
     ) -> None:
         """Cancel a task with the streams produced by it."""
-        abort_result = task.computation.abort(reason)
+        computation = task.computation
+        abort_result = computation.abort(reason)
         if is_awaitable(abort_result):
             cancel_awaitables.append(abort_result)
         task_node = self._task_nodes.get(task)
         if task_node:
             for child_stream in task_node.child_streams:
+                self._cancel_stream(child_stream, reason, cancel_awaitables)
+            if task_node.value is not _UNSET:
+                return  # the work produced by the task has been integrated
+        # Aborting a computation that has already succeeded has no effect. As
+        # its result has not been handled yet, the work produced by the task
+        # was never integrated into the graph and must be cancelled here.
+        result = computation.fulfilled_value
+        if result is not None and result.work:
+            for child_task in result.work.tasks:
+                self._cancel_task(child_task, reason, cancel_awaitables)
+            for child_stream in result.work.streams:
                 self._cancel_stream(child_stream, reason, cancel_awaitables)
 
     def _cancel_stream(
